@@ -49,6 +49,11 @@ func prewriteMutation(db *NoKV.DB, reader *Reader, req *pb.PrewriteRequest, mut 
 	if lock != nil && lock.Ts != req.StartVersion {
 		return keyErrorLocked(key, lock)
 	}
+	if lock != nil {
+		// Already prewritten by this transaction (the request is a duplicate): keep the lock as it
+		// is, in particular a min-commit ts pushed by CheckTxnStatus since the first delivery.
+		return nil
+	}
 	if write, commitTs, err := reader.MostRecentWrite(key); err != nil {
 		return keyErrorRetryable(err)
 	} else if write != nil && commitTs >= req.StartVersion {
